@@ -684,7 +684,7 @@ func (x *isoExec) sweep(blks []string, only []int, q []string) string {
 
 func genIso(g *Gen) {
 	genRaceOps(g, "racerun")
-	nHist := g.Scale(14, 160)
+	nHist := g.Scale(30, 280)
 	for h := 0; h < nHist; h++ {
 		l := newLedGen(g, "iso")
 		l.maxAddr = 3
